@@ -20,11 +20,6 @@ Proof.
   induction p; intros H; cbn [frag] in H; try discriminate; cbn [scaleF dfrag]; try reflexivity; try (apply IHp; exact H);
   apply andb_prop in H as [H1 H2]; rewrite IHp1, IHp2 by assumption; reflexivity.
 Qed.
-Lemma frag_no_precedes p : frag p = true -> no_precedes p = true.
-Proof.
-  induction p; intros H; cbn [frag] in H; try discriminate; cbn [no_precedes]; try reflexivity; try (apply IHp; exact H);
-  apply andb_prop in H as [H1 H2]; rewrite IHp1, IHp2 by assumption; reflexivity.
-Qed.
 Lemma wf_scale p : frag p = true -> wf_bounds p = true -> wf_bounds (scaleF Pn p) = true.
 Proof.
   induction p; intros Hf H; cbn [frag] in Hf; try discriminate; cbn [wf_bounds] in H; cbn [scaleF wf_bounds]; try reflexivity; try (apply IHp; assumption);
@@ -71,7 +66,7 @@ Proof.
   rewrite (dstart0 W _ H0) in G by (rewrite nvars_scale; unfold W; rewrite map_length; exact Hv).
   exists s. split; [exact E|]. intros k Hk.
   rewrite (good_den s 0 _ (Z.of_nat k * P) G) by (unfold P; nia).
-  rewrite (eval_off_correct AR pk p w n Hn Hb (frag_no_precedes p Hf)) by (intros x Hx; apply Hc; lia).
+  rewrite (eval_off_correct AR pk p w n Hn Hb) by (intros x Hx; apply Hc; lia).
   rewrite nth_tab by lia.
   assert (Ek : Z.to_nat (Z.of_nat k * P / P) = k) by (rewrite Z.div_mul by (unfold P; lia); apply Nat2Z.id).
   pose proof (grid_agree AR pk Pn w n tend HP Hc (fun _ _ => eq_refl) p Hf Hb (Z.of_nat k * P) ltac:(unfold P; nia)) as Hg.
